@@ -94,6 +94,8 @@ RICH = [
     "{% assign x = 'a', 'b', c %}{% for i in 1, 2, 3 %}{{ i }}{% endfor %}",
     "{{ \"Hi ${ name | append: '!' } bye\" }}{{ \"x ${ 'in ${y} ner' } z\" }}",
     "{{ 'a ${ \"b\" } c ${ x | default: \"d ${ 'e' } f\" } g' }}{% assign s = \"${ 'p' }${ 'q' }\" %}",
+    "{% extends 'p' %}\n\n{% block b %}\n  {{ 1 | divided_by: 0 }}{% endblock %}", "{% extends 'p' %}{% block b %}{{ block.super | nosuchfilter }}{% endblock %}",
+    "{% extends 'p' %}{% block b %}x{% render 'nosuchpartial' %}{% endblock %}", "{% extends 'p' %}{% block b %}{% for i in 5 %}{% endfor %}{% endblock %}",
     "{{ x }}\n{% if %}",
     "{% for %}",
     "text only",
@@ -228,6 +230,14 @@ def _error_problems(e: LiquidError, sources: set[str], out: list[str], where: st
     if n and s >= n and t > s:
         out.append(f"{where}: error position {s} is not inside the non-empty source of length {n}")
         return
+    # an error raised by the lexer also carries the extent of the markup it was scanning
+    ms, me = getattr(tok, "markup_start", None), getattr(tok, "markup_stop", None)
+    if isinstance(ms, int) and isinstance(me, int) and ms >= 0 and not (0 <= ms <= s and t <= me <= n or (ms <= me <= n and ms <= s <= n)):
+        out.append(f"{where}: error markup extent [{ms},{me}) does not lie inside the source of length {n} around the error at {s}")
+        return
+    if isinstance(me, int) and me > n:
+        out.append(f"{where}: error markup extent ends at {me}, beyond the source of length {n}")
+        return
     # a zero-width error at offset len(source) is the end-of-input position: allowed, and its
     # line information must address the end of the last line (checked below)
     if ctx is not None and n:
@@ -355,6 +365,10 @@ def check_source(env_name: str, env: Any, src: str, res: ShardResult | None, dee
                     template.render(a=[1, 2], b={"c": "d"}, x="s")
                 except LiquidError as e:
                     _error_problems(e, sources, problems, "render-error")
+                    # the template the error names must be the one whose source the position refers to
+                    named = {"main": src, **env.loader.templates}.get(e.template_name or "")
+                    if named is not None and e.token is not None and getattr(e.token, "source", named) != named:
+                        problems.append("render-error: the error names a template whose source is not the one its position refers to")
                 except Exception:  # noqa: BLE001
                     if res is not None:
                         res.count("foreign_exception_in_render")
